@@ -65,11 +65,25 @@ def build(cid, cfg, race=False):
 
 
 # Data races of the UNCHANGED tree that break no listed property (DESIGN 3.3):
-# pairs of innermost repository functions of the two racing accesses.
-RACE_BASELINE = {
-    # MemStorage.GetRouter stamps UsedAt on the stored record while holding only the read lock.
-    ("storage.(*MemStorage).GetRouter", "storage.(*MemStorage).GetRouter"),
+# stored router records (*storage.StoredRouter) are handed out by pointer and
+# stamped / updated in place without a lock by the functions below (UsedAt under
+# the storage's READ lock; PublicInfo, Universe, UpdatedAt, Offline with no lock
+# at all), so two frame handlers that deal with the same router at once race on
+# those fields. A report is part of this baseline iff BOTH racing accesses have
+# one of these functions as their innermost repository frame.
+RACE_BASELINE_FUNCS = {
+    "storage.(*MemStorage).GetRouter",
+    "state.(*State).AddPublicRouterInfo",
+    "state.(*State).MarkRouterOffline",
 }
+
+
+class _Baseline:
+    def __contains__(self, pair):
+        return all(f in RACE_BASELINE_FUNCS for f in pair)
+
+
+RACE_BASELINE = _Baseline()
 
 
 def parse_races(logpath):
@@ -184,7 +198,7 @@ def main():
             env = goenv()
             # checks whose full depth is cheap run it in the quick tier as well.
             shard_tier = "thorough" if cfg.get("quick_runs_full_depth") else tier
-            env.update({"VERIF_TIER": shard_tier, "VERIF_SEED": str(seed), "VERIF_SHARD": "%d/%d" % (s, shards), "VERIF_OUT": out})
+            env.update({"VERIF_TIER": shard_tier, "VERIF_REAL_TIER": tier, "VERIF_SEED": str(seed), "VERIF_SHARD": "%d/%d" % (s, shards), "VERIF_OUT": out})
             env["GOMAXPROCS"] = str(cfg.get("gomaxprocs", max(1, ncpu // shards)))
             env.setdefault("GOMEMLIMIT", "3GiB")  # safety net: the sandbox has no memory limit
             if budget:
@@ -199,7 +213,7 @@ def main():
             if os.path.exists(out):
                 os.remove(out)
             env = goenv()
-            env.update({"VERIF_TIER": tier, "VERIF_SEED": str(seed), "VERIF_SHARD": "0/1", "VERIF_OUT": out})
+            env.update({"VERIF_TIER": tier, "VERIF_REAL_TIER": tier, "VERIF_SEED": str(seed), "VERIF_SHARD": "0/1", "VERIF_OUT": out})
             env["GOMAXPROCS"] = "4"
             env["GORACE"] = "halt_on_error=0 history_size=2"
             env["VERIF_BUDGET_S"] = str(cfg.get("race_budget_s", {}).get(tier, 60 if tier == "quick" else 600))
@@ -276,6 +290,14 @@ def main():
         for v in first["violations"]:
             if v["key"] not in keys2:
                 print("UNCONFIRMED (not reproduced by a second run, not reported): key=%s: %s" % (v["key"], v["detail"][:300]))
+        if any(v["key"].startswith("data-race/") for v in confirmed):
+            # race reports come from a free-running pass: a third independent run must show them too.
+            merged3, _ = run_once()
+            keys3 = {v["key"] for v in (merged3["violations"] if merged3 else [])}
+            for v in confirmed:
+                if v["key"].startswith("data-race/") and v["key"] not in keys3:
+                    print("UNCONFIRMED (race report not reproduced by a third run, not reported): key=%s" % v["key"])
+            confirmed = [v for v in confirmed if not v["key"].startswith("data-race/") or v["key"] in keys3]
         first["violations"] = confirmed
         merged = first
         crashed = first_crashed if crashed2 else []
